@@ -35,6 +35,7 @@ def _check(ctx: Ctx) -> None:
     ctx.assumptions += ["integer interval", "pitches of the input lie inside the configured range"]
     t = tables.Tables(p)
     tables.check_transpose_key(ctx)
+    tables.check_tables_immutable(ctx)
     ev = tables.IntEval(p, t)
     tables.check_transpose_exhaustive(ctx, t, ev)
 
